@@ -1,6 +1,6 @@
 # C16 spec (see tools/props.py)
 SPEC = {
-        "ready": False,
+        "ready": True,
         "sources": ["c16.cpp", "c16_b.cpp"], "lib": [],
         "technique": "exhaustive enumeration of a dyadic frustum / camera / object alphabet; equality on the exact orthographic sub-alphabet, a-priori rounding bounds and plane margins elsewhere",
         "level_text": "All 5475 frusta of the alphabet (both projection kinds, asymmetric windows, far/near from 2 to 2^20) are run through every Frustum member (projectionMatrix, projectPointToScreen, projectScreenToRay, the depth and Z mappings, radii, fov/aspect, window, modifyNearAndFar, set(fov,aspect), planes) and, combined with every camera of 24 cube rotations x lattice translations x uniform scales, through planes(M) and FrustumTest on point/sphere/box lattices that straddle each of the six planes; the oracle is the camera-space definition of the frustum evaluated in long double on the pulled-back actual inputs. On the orthographic sub-alphabet with power-of-two extents every relation is checked as an equality.",
